@@ -203,16 +203,15 @@ class C03(Check):
             if t[3] != st[3]:
                 raise Violation("clip_shape", "returned event id %r has data differing from the stored event" % (t[0],), {"op": op})
             if (t[1], t[2]) != (st[1], st[2]):
+                # a backend that clips must return the stored event cut to the window and nothing else:
+                # both edges are those of (stored interval) intersected with (window), within the tolerance
                 pr["clipped_event_returned"] += 1
                 s, e = st[1], st[1] + st[2]
                 rs_, re_ = t[1], t[1] + t[2]
-                ok = rs_ >= s and re_ <= e
-                if rs_ != s and (ws is None or abs(rs_ - ws) > TOL):
-                    ok = False
-                if re_ != e and (we is None or abs(re_ - we) > TOL):
-                    ok = False
-                if not ok:
-                    raise Violation("clip_shape", "read over %s returned %s for stored event %s: neither the stored event nor the stored event cut to the window" % (win, short(t), short(st)), {"op": op})
+                cut_s = s if ws is None else max(s, ws)
+                cut_e = e if we is None else min(e, we)
+                if abs(rs_ - cut_s) > TOL or abs(re_ - cut_e) > TOL:
+                    raise Violation("clip_shape", "read over %s returned %s for stored event %s: neither the stored event nor the stored event cut to the window (%d, %d)" % (win, short(t), short(st), cut_s, cut_e), {"op": op})
         tss = [t[1] for t in got]
         if any(tss[k] < tss[k + 1] for k in range(len(tss) - 1)):
             raise Violation("order_desc", "read over %s of %r is not ordered by timestamp descending: %s" % (win, b, short([(t[0], t[1], t[2]) for t in got], 300)), {"op": op})
